@@ -33,6 +33,12 @@ pub fn current_worker_ordinal() -> ThreadId {
     ordinal
 }
 
+/// Verification hook: give the calling (non-worker) thread a worker ordinal.
+#[cfg(mmtk_verif)]
+pub fn verif_set_current_worker_ordinal(ordinal: ThreadId) {
+    WORKER_ORDINAL.with(|x| x.store(ordinal, Ordering::Relaxed));
+}
+
 /// The struct has one instance per worker, but is shared between workers via the scheduler
 /// instance.  This structure is used for communication between workers, e.g. adding designated
 /// work packets, stealing work packets from other workers, and collecting per-worker statistics.
